@@ -21,6 +21,19 @@ pub const PROT_WRITE: u32 = 0x2;
 /// The area can be executed
 pub const PROT_EXEC: u32 = 0x4;
 
+/// Returns true if the two address ranges have at least one address in common (empty ranges never do)
+fn ranges_overlap(a_start: u64, a_length: u64, b_start: u64, b_length: u64) -> bool {
+    if a_length == 0 || b_length == 0 {
+        return false;
+    }
+
+    if a_start >= b_start {
+        a_start - b_start < b_length
+    } else {
+        b_start - a_start < a_length
+    }
+}
+
 fn access_to_string(prot: u32) -> String {
     if prot == PROT_NONE {
         return "PROT_NONE".to_string();
@@ -558,7 +571,7 @@ impl Axecutor {
         name: Option<String>,
     ) -> Result<(), AxError> {
         for area in &self.state.memory {
-            if start >= area.start && start < area.start + area.length {
+            if ranges_overlap(start, data.len() as u64, area.start, area.length) {
                 let overlap_name = area
                     .name
                     .to_owned()
